@@ -961,7 +961,7 @@ static void run_chan_trial(trial_t *t)
 	t->close_place = k < 22 ? CP_AFTER_DONE : k < 34 ? CP_RELEASE_ONLY : k < 42 ? CP_BEFORE_ANY : k < 62 ? CP_BETWEEN : CP_IN_FLIGHT;
 	t->close_stop = t->close_place != CP_RELEASE_ONLY && vf_rnd_n(r, 2);
 	if (t->directed) {
-		t->transport = TR_PIPE; t->mode = DISPATCH_IO_STREAM; t->ctor = vf_rnd_n(r, 2) ? CT_CREATE : CT_WITH_IO;
+		t->transport = TR_PIPE; t->mode = DISPATCH_IO_STREAM; t->ctor = vf_rnd_n(r, 2) ? CT_CREATE : CT_WITH_IO; t->path_parent = 0;
 		t->close_place = vf_rnd_n(r, 2) ? CP_AFTER_DONE : CP_RELEASE_ONLY; t->close_stop = 0;
 	}
 	/* water marks (low <= high always) and an optional change between operations */
